@@ -265,6 +265,9 @@ func run(t failer, c Case) Result {
 	}
 	r := pred(c)
 	statsFor(c.Property).Record(c, r)
+	if len(r.Discard) >= 8 && r.Discard[:8] == "HARNESS:" {
+		t.Fatalf("HARNESS-ERROR: %s: %s (expr=%q doc=%s)", r.Discard, r.Violation, c.Expr, c.Doc)
+	}
 	if r.Violation != "" && r.Known == "" {
 		c.Note, c.Expected, c.Got = r.Violation, r.Expected, r.Got
 		p := writeReplay(c)
